@@ -291,6 +291,63 @@ def h_loop(o0: int, o1: int, o2: int, p0: int, p1: int, s0: int, s1: int, s2: in
     return vkopf.verdict(ok)
 
 
+def h_resume_subs(oa: int, ob: int, edit_after: int) -> bool:
+    """
+    pre: 0 <= oa <= 2 and 0 <= ob <= 2 and 0 <= edit_after <= 2
+    post: _ == True
+    """
+    # Recorded progress also governs SUB-handlers of a resume handler across a change of the cause: the operator restarts over a
+    # handled object, the resume handler declares sub-handlers a (outcome oa first: ok/temporary/permanent) and b (ob), and an
+    # essential edit arrives after `edit_after` more events -- before or after the resumption has finished.
+    vkopf.begin_path()
+    c = vkopf.cell()
+    oa, ob, edit_after = vkopf.pin('oa', oa), vkopf.pin('ob', ob), vkopf.pin('edit_after', edit_after)
+    w = ClosedLoop(base_body(), storage=c.get('storage', 'smart'), lifecycle=c.get('lifecycle', 'all_at_once'))
+    w.add_parent_handler(kopf.on.resume, 'ha', ['a', 'b'])
+    w.add_handler(kopf.on.update, 'hu')
+    w.outcomes = {'ha/a': [oa], 'ha/b': [ob]}
+
+    async def main():
+        try:
+            await w.deliver()                  # a previous life: seen and handled (no creation handlers: the cycle closes at once)
+            await w.settle()
+            w.graceful_restart()
+            w.invocations.clear()
+            for _ in range(edit_after + 1):    # the listing, then the echoes of the operator's own writes
+                if w.needs_listing:
+                    w.needs_listing = False
+                    await w.deliver_listing()
+                elif w.server.obj['metadata']['resourceVersion'] != w.delivered_rv:
+                    await w.deliver()
+            w.server.write(lambda o: o['spec'].update(x=2))
+            await w.deliver()
+            return await w.settle(max_events=20)
+        finally:
+            await cancel_all_others()
+    try:
+        conv = w.run(main(), max_steps=30000)
+    except (Deadlock, Diverged, Livelock):
+        return vkopf.verdict(False)
+    ok = bool(conv)
+    for hid in ('ha/a', 'ha/b'):
+        inv = [i for i in w.invocations if i['id'] == hid]
+        # a final outcome (success, permanent failure) is final: never invoked again, whatever cause took over
+        for k, i in enumerate(inv):
+            if i['outcome'] in (0, 2) and k != len(inv) - 1:
+                ok = False
+        # attempts are numbered consecutively from the recorded count: 0, 1, 2, ...
+        if [i['retry'] for i in inv] != list(range(len(inv))):
+            ok = False
+        if len(inv) > 1:
+            vkopf.witness('sub_retried_across_causes')
+    if any(i['id'] == 'hu' for i in w.invocations) and any(i['id'].startswith('ha/') and i['reason'] == 'update' for i in w.invocations):
+        vkopf.witness('resumption_superseded')
+    # the edit is handled exactly once
+    if len([i for i in w.invocations if i['id'] == 'hu' and i['outcome'] == 0]) != 1:
+        ok = False
+    return vkopf.verdict(ok)
+
+
 def obligations():
     obs = []
     K = [0, 1, 2, 3]
@@ -321,6 +378,11 @@ def obligations():
     for (o0, o1) in ((0, 4), (0, 0), (4, 0)):
         obs.append(Ob('h_loop', {'storage': 'smart', 'lifecycle': 'all_at_once', 'handlers': 'subhandlers', 'n': 1, 'pin': {'o0': o0, 'o1': o1, 's0': 0}},
                       tiers=('quick',), timeout=600, path_timeout=300))
+    for (oa, ea) in ((2, 0), (1, 0), (1, 1)):
+        obs.append(Ob('h_resume_subs', {'pin': {'oa': oa, 'edit_after': ea}}, tiers=('quick', 'thorough'), timeout=600, path_timeout=300,
+                      twins=['sub_retried_across_causes'] if (oa, ea) == (1, 0) else []))
+    obs += split(Ob('h_resume_subs', {'storage': 'status', 'lifecycle': 'one_by_one'}, tiers=('thorough',), timeout=900, path_timeout=300),
+                 oa=[0, 1, 2], edit_after=[0, 1, 2])
     S, O = [0, 1, 2, 3, 4], [0, 1, 2, 3]
     obs += sample(Ob('h_loop', {'storage': 'smart', 'lifecycle': 'all_at_once', 'handlers': 'one_create', 'n': 2},
                      tiers=('thorough',), timeout=900, path_timeout=300), 48, seed=29, s0=S, s1=S, o0=O)
